@@ -6,6 +6,7 @@ import (
 	"sort"
 	"strings"
 	"sync"
+	"sync/atomic"
 	"time"
 
 	"go.opentelemetry.io/collector/client"
@@ -193,9 +194,36 @@ func runC17(r *simkit.Run) {
 	if err != nil {
 		panic(err)
 	}
+	// Lock-site yields (build-time instrumentation, tools/lockinst.py): a producer that is about to take the batcher's
+	// mutex may be parked there - it holds no lock - so that another producer's arrival is processed first. Which
+	// arrival parks comes from a mask drawn in advance. The scheduler goroutine itself never parks.
+	yg := simkit.NewGate()
+	var lockMask uint64
+	var lockSeen int
+	var inSched, quiet atomic.Bool
+	if lockInstrumented && len(cfg.Keys) > 0 && tp.Chance(1, 2) {
+		lockMask = uint64(tp.Draw(1<<16)) | uint64(tp.Draw(1<<16))<<16
+	}
+	setBatchLockYield(func(site string) {
+		if lockMask == 0 || inSched.Load() || quiet.Load() || !strings.HasSuffix(site, ".consume") {
+			return
+		}
+		s.mu.Lock()
+		k := lockSeen
+		lockSeen++
+		s.mu.Unlock()
+		if lockMask>>(uint(k)%32)&1 == 0 {
+			return
+		}
+		r.Count("fault.producer_parked_before_batcher_lock")
+		yg.Park(fmt.Sprintf("yield:%s#%d", site, k))
+	})
+	defer setBatchLockYield(nil)
+	inSched.Store(true)
 	if err := proc.Start(context.Background(), componenttest.NewNopHost()); err != nil {
 		panic(err)
 	}
+	inSched.Store(false)
 	r.Settle()
 	timeout := time.Duration(cfg.TimeoutS) * time.Second
 	type prod struct {
@@ -285,6 +313,10 @@ func runC17(r *simkit.Run) {
 			ch = append(ch, simkit.Choice{Name: "sink-ok:" + id, W: 3, Fire: func() { s.gate.Release(id, nil) }})
 			ch = append(ch, simkit.Choice{Name: "sink-err:" + id, W: 1, Fire: func() { s.gate.Release(id, errStubConsume) }})
 		}
+		for _, id := range yg.Parked() {
+			id := id
+			ch = append(ch, simkit.Choice{Name: "release:" + id, W: 3, Fire: func() { yg.Release(id, nil) }})
+		}
 		if timeout > 0 {
 			ch = append(ch, simkit.Choice{Name: "advance:timeout", W: 2, Fire: func() { time.Sleep(timeout) }})
 			ch = append(ch, simkit.Choice{Name: "advance:half", W: 1, Fire: func() { time.Sleep(timeout / 2) }})
@@ -299,6 +331,16 @@ func runC17(r *simkit.Run) {
 		ev := r.Pick(ch)
 		collect()
 		s.observe(ev, timeout)
+	}
+	quiet.Store(true)
+	for i := 0; i < 50 && !r.Failed(); i++ {
+		ids := yg.Parked()
+		if len(ids) == 0 {
+			break
+		}
+		r.Fire("quiet-release:"+ids[0], func() { yg.Release(ids[0], nil) })
+		collect()
+		s.observe("quiet", timeout)
 	}
 	if !s.shutFired {
 		r.Fire("shutdown", func() {
@@ -324,7 +366,7 @@ func runC17(r *simkit.Run) {
 	// release producers that may still be blocked (outside A) so that the bubble can end
 	for i := 0; i < 50; i++ {
 		r.Settle()
-		if s.gate.ReleaseAll(nil) == 0 {
+		if s.gate.ReleaseAll(nil)+yg.ReleaseAll(nil) == 0 {
 			break
 		}
 	}
